@@ -185,6 +185,35 @@ Theorem C04_no_stale_shaping_in_tunnel :
 Proof. exact (conj no_stale_shaping stale_shaping_without_reset). Qed.
 Print Assumptions C04_no_stale_shaping_in_tunnel.
 
+(* The proxy's own close is graceful: whatever is still queued toward a slow
+   reader when [Join] closes the dialled connection is sent, then the FIN — the
+   source sets SO_LINGER nowhere (fact from gen_c04); with linger 0 the queue
+   would be dropped. *)
+Theorem C04_proxy_close_is_graceful :
+  (forall q, proxy_close_discards dial_sets_linger q = 0%N) /\
+  (forall q, proxy_close_discards true q = q).
+Proof. exact (conj proxy_close_is_graceful linger0_discards). Qed.
+Print Assumptions C04_proxy_close_is_graceful.
+
+(* Several tunnels at once.  Run side by side (any interleaving of the two
+   tunnels' labels), each tunnel is exactly a run of its own LTS, and at its own
+   quiescence shows its own ideal view whatever the other one does; on a shaped
+   listener that needs the copy halves not to hold the shared bucket's lock
+   while they block (fact from gen_c04). *)
+Theorem C04_concurrent_tunnels_independent :
+  (forall c tr sa sb sa' sb',
+     run2 c sa sb tr = Some (sa', sb') <->
+     run c sa (proj true tr) = Some sa' /\ run c sb (proj false tr) = Some sb') /\
+  (forall ea pa eb pb tr sa sb,
+     run2 repaired (init ea pa) (init eb pb) tr = Some (sa, sb) ->
+     (quiescentb sa = true -> client_aborted (proj true tr) = false -> target_aborted (proj true tr) = false ->
+      view_of sa = spec_view ea pa (proj true tr)) /\
+     (quiescentb sb = true -> client_aborted (proj false tr) = false -> target_aborted (proj false tr) = false ->
+      view_of sb = spec_view eb pb (proj false tr))) /\
+  tunnel_may_wait_for_another shaped_copy_unlocked = false.
+Proof. exact (conj run2_proj (conj concurrent_tunnels_ideal tunnels_do_not_wait)). Qed.
+Print Assumptions C04_concurrent_tunnels_independent.
+
 (* the probe's oracle: a write into the dead tunnel eventually fails and the
    canary origin is never contacted *)
 Theorem C04_probe_oracle_is_the_property : forall w q,
@@ -481,3 +510,13 @@ Example C04_example_clauses :
   eobs_clause 5 false (Some (mkEobs 5 true true)) = 4 /\
   eobs_clause 5 true (Some (mkEobs 5 true true)) = 0.
 Proof. repeat (split; [vm_compute; reflexivity|]). vm_compute; reflexivity. Qed.
+
+(* tunnel A idle and never quiescent-relevant, tunnel B transfers and shuts:
+   B's view is ideal (C04_concurrent_tunnels_independent) *)
+Example C04_example_two_tunnels :
+  exists sa sb, run2 repaired (init [] []) (init ["e"] [])
+      [(true, ClientSend ["a"]); (false, Drain1); (false, ClientSend ["x"]); (false, Copy1 3);
+       (false, TargetSend ["z"]); (false, Copy2 1); (false, ClientShut); (false, Eof1)] = Some (sa, sb)
+    /\ quiescentb sa = false /\ quiescentb sb = true
+    /\ view_of sb = mkView ["e"; "x"] true ["z"] false false.
+Proof. eexists. eexists. repeat (split; [vm_compute; reflexivity|]). vm_compute; reflexivity. Qed.
